@@ -89,6 +89,7 @@ type OptCfg struct {
 	Name       Tok    `json:"name"`
 	Aliases    []Tok  `json:"aliases"`
 	AliasSplit bool   `json:"aliassplit"` // builder only: every alias is given by its own Alias modifier
+	ModLast    bool   `json:"modlast"`    // builder only: Alias / Description / ArgName / Required come after the other modifiers, in reverse
 	Kind       string `json:"kind"`       // bool incr string int float sopt iopt fopt sslice islice fslice smap
 	Min        int    `json:"min"`
 	Max        int    `json:"max"`
